@@ -68,6 +68,23 @@ CLAIMED = {
         technique="Lean 4 proof (mutual structural induction for the codec, decide +kernel over generated command tables) + exhaustive-over-commands differential vs real _ezsp_frame / __call__",
         note="Rows whose rx schema ends in a greedy list, nests an optional field in a trailing struct, or has the requires-conditioned field (4 commands) are outside the round-trip theorem (counted by c07_rx_coverage) and covered by the differential only. zigpy's type classes are modelled via the descriptor lowering. ",
     ),
+    "C06": dict(
+        text="Model of ProtocolHandler.command / __call__ at settled loop states: _seq, _awaiting (insertion-ordered, with the state of each entry's future), the holder of the MAX_COMMAND_CONCURRENCY slot and its future, waiters ordered as PriorityDynamicBoundedSemaphore orders them; events {call, send completion/failure, frame, timer expiry, clock advance, cancellation}. "
+        "Theorems: inductive invariant over every event list (the table holds exactly the live holder's unanswered entry; waiters sorted by priority; nobody queued behind a free slot); a call returns a payload only from a frame carrying its own sequence number and frame ID while it is the call in flight; TimeoutError exactly EZSP_CMD_TIMEOUT after the send completed; at most one request in flight; "
+        "the released slot goes to the greatest-priority, oldest waiter (insert position proved: behind ≥, ahead of <) with the generated priority classes (999 keep-alive/counter reads, 0, −1 packet-send); sequence numbers advance by one mod 256; a decodable frame whose sequence number no call in flight owns reaches the callbacks exactly once and changes nothing else. "
+        "Tie: generated priorities/constants + real EZSP + ProtocolHandler (v4/v7/v8/v14) with a scripted gateway on a virtual-time loop: all sequences of ≤ 2 (3 thorough) commands × 13 per-command behaviours, random scripts with 2–4 queued callers of mixed priority, malformed frames and cancellations, 300-command soaks; model compared at every settled state, oracle on the implementation trace.",
+        ref="6 C06",
+        technique="Lean 4 proof (inductive invariant over event lists + per-event specifications) + exhaustive/random differential vs real command()/__call__ on a virtual-time loop",
+        note="zigpy's PriorityDynamicBoundedSemaphore is modelled (ordering by (-priority, arrival)); granularity is settled loop states. ",
+    ),
+    "C08": dict(
+        text="Receive entry point modelled as the guard of EZSP.frame_received around the C07 codec model (header parse, table lookup, payload decode) and the C06 command-layer model. Theorems: classification of any byte string is total (empty / short / unknown ID / undecodable / decodes); malformed input changes no state, completes no call and invokes no callback; "
+        "a call is completed with a payload only by bytes whose header carries its own sequence number and frame ID (invariant of C06 for every reachable state); a callback is invoked only for bytes that parse, name a frame of the active table and decode against its schema; from any reachable state with the slot free a fresh call followed by its matching reply returns that reply. "
+        "Tie: generated command tables (incl. the EmberKeyStruct receive-side padding quirk, lowered after probing) + the real EZSP.frame_received for every version 4..14 with a pending command of the same / another frame ID / an already finished one / none, on valid frames truncated at every length and mutated by bit flips, ID and sequence substitution, appended bytes, random strings; then a fresh command.",
+        ref="6 C08",
+        technique="Lean 4 proof (case analysis over the classification, reuse of the C06 invariant) + differential vs real frame_received on mutated frames, all versions",
+        note="Exceptions swallowed by the guard are not observable from outside; the model's internal `rxRaised` marker is compared only through its effects (state, completions, callbacks). ",
+    ),
     "C15": dict(
         text="Inductive invariant (groups distinct; every host entry programmed non-zero at its index; every free index cleared; free ∪ used covers the table) proved for every "
         "operation sequence over {start-up, subscribe, unsubscribe}, every table size, every initial table with each group at most once, every answer {OK, rejection, timeout} and every "
